@@ -136,8 +136,8 @@ def base_threshold():
 
 
 def vertex_constants():
-    tree, _ = T.load(VERTS)
-    fn = T.find_def(tree, "_BaseFrameField2DVertices._initialize_variables")
+    from .c18stranslate import load_fn          # normalised tree
+    fn = load_fn(VERTS, "_BaseFrameField2DVertices._initialize_variables")
     pw = [s for s in ast.walk(fn) if isinstance(s, ast.Assign) and isinstance(s.targets[0], ast.Name) and s.targets[0].id == "vpow"]
     if len(pw) != 2:
         raise T.TranslateError(f"expected two `vpow = (v/abs(v)) ** self.order`, found {len(pw)}")
@@ -145,12 +145,12 @@ def vertex_constants():
         e = _unit_pow(s.value, "v")
         if not _is_self_attr(e, "order"):
             raise T.TranslateError("vertex constraint exponent is not self.order")
-    gs = [s for s in ast.walk(fn) if isinstance(s, ast.If) and isinstance(s.test, ast.Compare) and isinstance(s.test.ops[0], ast.Gt)
-          and isinstance(s.test.left, ast.Call) and getattr(s.test.left.func, "id", None) == "abs"
-          and isinstance(s.test.left.args[0], ast.BinOp) and isinstance(s.test.left.args[0].op, ast.Add)]
+    gs = [s for s in ast.walk(fn) if isinstance(s, ast.If) and isinstance(s.test, ast.Compare) and isinstance(s.test.ops[0], ast.Lt)
+          and isinstance(s.test.comparators[0], ast.Call) and getattr(s.test.comparators[0].func, "id", None) == "abs"
+          and isinstance(s.test.comparators[0].args[0], ast.BinOp) and isinstance(s.test.comparators[0].args[0].op, ast.Add)]
     if len(gs) != 2:
         raise T.TranslateError(f"expected two cancellation guards `abs(self.var[.] + vpow) > THR`, found {len(gs)}")
-    thr = {_ratlit(s.test.comparators[0]) for s in gs}
+    thr = {_ratlit(s.test.left) for s in gs}
     if len(thr) != 1:
         raise T.TranslateError("the two cancellation guards use different thresholds")
     # condition selecting the guarded branch: `self.smooth_normals and self.order%2 != 1`
@@ -201,4 +201,7 @@ end Mouette.Generated.C18
 """
         _, sha = T.write_generated("C18Consts", body)
         for r in recs: r["detail"] = f"{r['detail']} [file sha {sha}]"
+    if not all(r["ok"] for r in recs):
+        from .c18stranslate import write_stub
+        write_stub("C18Consts", recs)          # never leave the file of an earlier tree on disk
     return recs
